@@ -244,7 +244,9 @@ def dynamic_freshness(ctx, seed, srp_calls, exchanges, write=True, report=True):
     ex = run_stage(ctx, "exchange", seed, exchanges, seed)
     n += judge(ctx, ex, lambda: run_stage(ctx, "exchange", seed, exchanges, seed + 1000003), report)
     oks = [x for x in ex["exchanges"] if x["class"] == "ok"]
-    if report and (len(oks) < exchanges // 2 or any(x["class"] in ("panic", "hang") for x in ex["exchanges"])):
+    if report and (len(oks) < exchanges // 2 - exchanges // 6 or
+                   any(x["class"] in ("panic", "hang") and not x["fault"].startswith("read-fails@") for x in ex["exchanges"]) or
+                   any(x["class"] == "hang" for x in ex["exchanges"])):
         raise C.BuildError("c19 exchange: the scripted key exchanges did not run as scheduled: %s" % ex["exchanges"][:8])
     if write:
         write_drawlog(fr, ex)
